@@ -1934,7 +1934,11 @@ def run_module(args) -> dict:
     def one(pop, member, value):
         name = f"{pid}/{mod}.{member}/{'source-form' if pop == 'source' else 'canonical-form'}"
         spec = {"population": pop, "file": relpath, "member": member}
-        r = validate(kind, value, name, f"{mod}.{member}", spec)
+        try:
+            r = validate(kind, value, name, f"{mod}.{member}", spec)
+        except Exception as ex:  # a reader/engine bug must not pass silently nor hide the other renderings
+            res["faults"].append(f"{name}: engine error {type(ex).__name__}: {str(ex)[:200]}")
+            return
         if r.ob is not None:
             res["obs"].append(r.ob)
             res["programs"] += 1
@@ -1964,7 +1968,7 @@ def run_module(args) -> dict:
 
 
 # ----------------------------------------------------------------------------------------- general canonical trees
-TREE_SYMBOLS = [("x", "x"), ("y_1", "y_1"), ("t'", "t'")]
+TREE_SYMBOLS = [("x", "x"), ("y_1", r"\varepsilon_\text{r}"), ("t'", "t'")]
 _tree_syms: list = []
 UNARY = ("sqrt", "exp", "log", "sin")
 BINARY = ("add", "sub", "mul", "div", "pow")
@@ -2067,7 +2071,12 @@ def run_trees(args) -> dict:
             continue
         seen.add(e)
         name = f"{pid}/tree/d{depth}#{ix}"
-        r = validate(kind, e, name, f"tree:{spec!r}", {"population": "tree", "tree": spec})
+        try:
+            r = validate(kind, e, name, f"tree:{spec!r}", {"population": "tree", "tree": spec})
+        except Exception as ex:
+            res["oor"].append((name, f"engine error {type(ex).__name__}: {str(ex)[:200]}"))
+            res["errors"] = res.get("errors", 0) + 1
+            continue
         if r.out_of_reach is not None:
             res["oor"].append(r.out_of_reach)
             continue
@@ -2123,6 +2132,9 @@ def run_property(report, pid: str, kind: str):
         tcount, not tfail, tfail)
     for nm, why in toor[:40]:
         report.add_out_of_reach(nm, why)
+    nerr = sum(r.get("errors", 0) for r in tree_results)
+    if nerr:
+        report.fault(f"{nerr} tree renderings raised an engine error (first: {[w for _, w in toor if w.startswith('engine error')][:1]})")
     report.extra["populations"] = {
         "catalogue_source_form_renderings": counts["source"],
         "catalogue_canonical_form_renderings": counts["canonical"],
